@@ -286,10 +286,15 @@ func c10Cross(base map[string]any) []c10Case {
 	for _, t := range paths {
 		tval := getAt(base, toAnyPath(t))
 		for _, dir := range []string{"$merge", "$replace"} {
-			for fi, ref := range []any{
+			refs := []any{
 				map[string]any{"$match": map[string]any{"id": 1}, "$path": toAnyPath(t)},
 				append([]any{map[string]any{"id": 1}}, toAnyPath(t)...),
-			} {
+			}
+			if sp, ok := c10Spellings(t)[0].(string); ok {
+				// the dotted string spelling of $path
+				refs = append(refs, map[string]any{"$match": map[string]any{"id": 1}, "$path": sp})
+			}
+			for fi, ref := range refs {
 				iv := core.Clone(tval)
 				if dir == "$merge" {
 					w, err := c10Layer(map[string]any{}, tval)
